@@ -696,14 +696,16 @@ with builtin_call (n : nat) (fr : list frame) (b : builtin) (args : list value) 
   | BXpcall =>
       fun s => catch (bind (call n' ((None, None) :: fr) a1 [] s) (fun vs s' => Ret (VBool true :: vs) s'))
                      (fun e s' => catch (bind (call n' ((None, None) :: fr) a2 [e] s') (fun hv s'' => Ret [VBool false; first hv] s''))
-                                       (fun _ _ => Unsup 22))   (* an error inside the message handler: outside the fragment *)
+                                       (fun e2 s2 => (* an error inside the message handler *)
+                                          if dv_handler_err (dv s2) then Ret [VBool false; e2] s2
+                                          else Ret [VBool false; VStr s_error_in_error_handling] s2))
   | BError =>
       do lv <- opt_int a2 1;
       do dvs <- (fun s => Ret (dv s) s);
       match a1 with
       | VStr m =>
           if lv <=? 0 then raise a1 else
-          let idx := if dv_errlevel dvs && (2 <=? lv) then lv - 2 else lv - 1 in
+          let idx := lv - 1 in
           match nth_error fr (Z.to_nat idx) with
           | Some (Some l, _) => raise (VStr (pos_prefix l ++ m))
           | _ => raise a1
@@ -712,7 +714,7 @@ with builtin_call (n : nat) (fr : list frame) (b : builtin) (args : list value) 
       | VNum f =>
           if lv <=? 0 then raise a1 else
           do t <- num_text f;
-          let idx := if dv_errlevel dvs && (2 <=? lv) then lv - 2 else lv - 1 in
+          let idx := lv - 1 in
           match nth_error fr (Z.to_nat idx) with
           | Some (Some l, _) => raise (VStr (pos_prefix l ++ t))
           | _ => raise a1
